@@ -1,4 +1,4 @@
-import Ledger.Driver.Core
+import Ledger.Driver.Hash
 
 /-! `ldriver_hash`: correspondence driver for the Hash area (core-only). -/
-def main : IO Unit := Ledger.Driver.runDriver []
+def main : IO Unit := Ledger.Driver.runDriver Ledger.Driver.hashHandlers
